@@ -153,6 +153,96 @@ func checkWireAllocs(c *core.Ctx, rule string, fns []*ssa.Function) (nMakes, nWi
 	return
 }
 
+// checkWireSliceBounds: a re-slice x[:h] whose bound h is a 64-bit count read from the
+// wire must be preceded by an upper bound on that count.  (A u64 count that was
+// converted to int for a loop may have wrapped negative, so 'the loop appended h
+// elements' is not an argument.)
+func checkWireSliceBounds(c *core.Ctx, rule string, fns []*ssa.Function) int {
+	n := 0
+	for _, fn := range fns {
+		for _, b := range fn.Blocks {
+			for _, in := range b.Instrs {
+				sl, ok := in.(*ssa.Slice)
+				if !ok || sl.High == nil {
+					continue
+				}
+				root, kind := wireCount(sl.High, 0)
+				if root == nil || (kind != "u64" && kind != "varuint") {
+					continue
+				}
+				if _, isArr := sl.X.Type().Underlying().(*types.Pointer); isArr {
+					continue // slicing a fixed array: bounds are checked against a constant length by the compiler only for constants
+				}
+				n++
+				isRoot := func(v ssa.Value) bool { r, _ := wireCount(v, 0); return r == root }
+				var isBound func(v ssa.Value) bool
+				isBound = func(v ssa.Value) bool {
+					v = ir.Strip(v)
+					if bo, ok := v.(*ssa.BinOp); ok {
+						switch bo.Op {
+						case token.QUO, token.MUL, token.ADD, token.SUB:
+							return isBound(bo.X) && isBound(bo.Y)
+						}
+					}
+					if _, ok := v.(*ssa.Const); ok {
+						return true
+					}
+					if cl, ok := v.(*ssa.Call); ok {
+						if o := ir.CalleeObj(cl); o != nil && (o.Name() == "Len" || o.Name() == "Size") {
+							return true
+						}
+						if bi, isB := cl.Common().Value.(*ssa.Builtin); isB && (bi.Name() == "len" || bi.Name() == "cap") {
+							return true
+						}
+					}
+					return false
+				}
+				// the bound must be something that limits the list actually held: the bytes left or len/cap — a bare constant clamp is not enough
+				g := relGuard("wire count <= remaining input / len", isRoot, func(v ssa.Value) bool {
+					if _, isK := ir.Strip(v).(*ssa.Const); isK {
+						return false
+					}
+					return isBound(v)
+				}, token.LEQ)
+				pass := ir.PassEdges(fn, g.G)
+				bounded := false
+				if len(pass) > 0 {
+					r := ir.NewReach(fn).CutEdges(pass).Run(nil)
+					bounded = !r.Instr(in)
+				}
+				// or: a loop counted in the SAME unsigned width (no signed conversion that could wrap) ran to
+				// its end before the re-slice, so one element per unit of the count was decoded
+				how := "guard"
+				if !bounded {
+					for _, cd := range ir.Conds(fn) {
+						cmp, isB := cd.V.(*ssa.BinOp)
+						if !isB || cmp.Op != token.LSS {
+							continue
+						}
+						if _, isPhi := cmp.X.(*ssa.Phi); !isPhi {
+							continue
+						}
+						if cmp.Y != root {
+							continue // a converted bound (int(count)) may have wrapped
+						}
+						if bt, isBasic := cmp.X.Type().Underlying().(*types.Basic); !isBasic || bt.Info()&types.IsUnsigned == 0 {
+							continue
+						}
+						exit := cd.If.Block().Succs[1]
+						if exit == sl.Block() || exit.Dominates(sl.Block()) {
+							bounded = true
+							how = "unsigned counted loop completed"
+						}
+					}
+				}
+				c.Touch(fn)
+				c.Decide(bounded, rule, fn, "a list is re-sliced to a "+kind+" count from the wire only after that count was bounded by the data actually present", c.P.Rel(sl.Pos()), how)
+			}
+		}
+	}
+	return n
+}
+
 // decoderFuncs: Deserialization / Deserialize methods (and package-level Deserialize* / *FromRawBytes helpers) of the selected packages.
 func decoderFuncs(c *core.Ctx, sel func(pkgRel string) bool) []*ssa.Function {
 	var out []*ssa.Function
